@@ -60,7 +60,7 @@ func buildAcceptNAS(r *rand.Rand, ueIP net.IP, qosLen int, mask int) ([]byte, st
 	sm = append(sm, 0x2e, byte(r.Intn(256)), byte(r.Intn(256)), 0xc2)
 	sm = append(sm, byte(1+r.Intn(3))<<4|0x01)     // SSC mode | selected PDU session type IPv4
 	sm = append(sm, byte(qosLen>>8), byte(qosLen)) // authorized QoS rules LV-E
-	sm = append(sm, rbytes(r, qosLen)...)
+	sm = append(sm, imitating(r, qosLen)...)
 	sm = append(sm, 0x06) // session AMBR LV 6
 	sm = append(sm, rbytes(r, 6)...)
 	desc := fmt.Sprintf("qos=%d opt=", qosLen)
@@ -90,7 +90,7 @@ func buildAcceptNAS(r *rand.Rand, ueIP net.IP, qosLen int, mask int) ([]byte, st
 	if mask&16 != 0 { // 75 mapped EPS bearer contexts TLV-E
 		n := 4 + r.Intn(40)
 		sm = append(sm, 0x75, byte(n>>8), byte(n))
-		sm = append(sm, rbytes(r, n)...)
+		sm = append(sm, imitating(r, n)...)
 		desc += "eps,"
 	}
 	if mask&32 != 0 { // 78 EAP TLV-E
@@ -102,7 +102,7 @@ func buildAcceptNAS(r *rand.Rand, ueIP net.IP, qosLen int, mask int) ([]byte, st
 	if mask&64 != 0 { // 79 QoS flow descriptions TLV-E
 		n := 3 + r.Intn(400)
 		sm = append(sm, 0x79, byte(n>>8), byte(n))
-		sm = append(sm, rbytes(r, n)...)
+		sm = append(sm, imitating(r, n)...)
 		desc += "flowdesc,"
 	}
 	if mask&128 != 0 { // 7B ePCO TLV-E
@@ -129,7 +129,27 @@ func buildAcceptNAS(r *rand.Rand, ueIP net.IP, qosLen int, mask int) ([]byte, st
 	return out, desc
 }
 
+// imitating returns n content octets; one time in three they contain a byte sequence that looks like a complete PDU
+// address element (29 05 01 + another address) or like the elements around it - content of a variable-length element is
+// data, whatever it looks like.
+func imitating(r *rand.Rand, n int) []byte {
+	b := rbytes(r, n)
+	if n >= 7 && r.Intn(3) == 0 {
+		fake := append([]byte{0x29, 0x05, 0x01}, rbytes(r, 4)...)
+		copy(b[r.Intn(n-6):], fake)
+		if n >= 16 && r.Intn(2) == 0 {
+			copy(b[r.Intn(n-15):], []byte{0x59, 0x1a, 0x29, 0x05, 0x01, 0xde, 0xad, 0xbe, 0xef, 0x22, 0x01, 0x01, 0x79, 0x00, 0x03})
+		}
+	}
+	return b
+}
+
 func bitRateCorner(r *rand.Rand) int64 {
+	if r.Intn(5) == 0 {
+		// values whose octets IMITATE structure: the header of the tunnel IE that follows (id 139 = 00 8b, criticality 00),
+		// other IE ids of the transfer, length-looking octets. A walker reads them as data; a searcher takes them for the IE.
+		return pick(r, int64(0x8b), 0x8b00, 0x008b00, 0x01008b00, 0x8b008b, 0x008b0000, 0x00008b, 0x7f008b00, 0x8b000a, 0x0088, 0x0086, 0x860000, 0x008b000a00)
+	}
 	k := uint(8 * (1 + r.Intn(5)))
 	return pick(r, int64(0), 1, 255, 256, (1<<k)-1, 1<<k, (1<<k)+1, 4000000000000, r.Int63n(4000000000001))
 }
